@@ -19,6 +19,10 @@
  *                                                   (see the code)
  *   merr nf <cal fs> np <fs> <sigma_nf: np> tr      vnacal_new_set_m_error with its own grid
  *                                                   (tr=1: sigma_tr = 2 * sigma_nf also given)
+ *   merrh nf <cal fs A: nf> <cal fs B: nf> np <fs> <sigma_nf: np>
+ *                                                   history: set_frequency_vector(A), set_m_error on its own
+ *                                                   grid (must be accepted), set_frequency_vector(B): prints
+ *                                                   REJ, or ACC and the stored noise per frequency afterwards
  *   apply nf <cal fs> k <fs: k>                     1x1 E12 calibration solved from short/open/match,
  *                                                   then vnacal_apply_m on k frequencies
  *   zero                                            frequencies == 0 in set_frequency_vector / apply
@@ -295,6 +299,38 @@ int main(void)
 	    vnacal_new_free(vnp);
 	    vnacal_free(vcp);
 	    free(cf); free(fs); free(sg); free(st);
+	} else if (strcmp(op, "merrh") == 0) {
+	    int nf = rdi();
+	    double *ca = rdvec(nf), *cb = rdvec(nf);
+	    int np = rdi();
+	    double *fs = rdvec(np), *sg = rdvec(np);
+	    vnacal_t *vcp = vnacal_create(error_fn, NULL);
+	    vnacal_new_t *vnp = new_1x1(vcp, nf);
+	    int rc1 = vnacal_new_set_frequency_vector(vnp, ca);
+	    int rc2 = rc1 == 0 ? vnacal_new_set_m_error(vnp, fs, np, sg, NULL) : -1;
+	    if (rc1 != 0 || rc2 != 0) {
+		printf("merrh SETUPFAIL\n");
+	    } else {
+		errors = 0;
+		int rc3 = vnacal_new_set_frequency_vector(vnp, cb);
+		if (rc3 == -1 && errors == 1) {
+		    printf("merrh REJ\n");
+		} else if (rc3 != 0 || errors != 0) {
+		    printf("merrh ODD\n");
+		} else {
+		    printf("merrh ACC");
+		    if (vnp->vn_m_error_vector == NULL) {
+			printf(" NONE");
+		    } else {
+			for (int i = 0; i < nf; ++i)
+			    printf(" %a %a", vnp->vn_m_error_vector[i].vnme_sigma_nf, vnp->vn_m_error_vector[i].vnme_sigma_tr);
+		    }
+		    printf("\n");
+		}
+	    }
+	    vnacal_new_free(vnp);
+	    vnacal_free(vcp);
+	    free(ca); free(cb); free(fs); free(sg);
 	} else if (strcmp(op, "apply") == 0) {
 	    int nf = rdi();
 	    double *cf = rdvec(nf);
